@@ -155,8 +155,15 @@ def report(prop, tier, seed, t0, results, scan_results, pinfo, unit_recipes=None
             else:
                 undecided.append(f"{ob['name']}: solver unknown ({ob['reason'][:120]})")
     for s in scan_results:
-        n_ob += 1
         all_obs.append(s)
+        kf = [k for k in known if k.get('obligation') == s['name']]
+        if kf and s['status'] == 'refuted':
+            # a syntactic lemma with an open known finding: counted as the finding, not as a new violation
+            s['known_id'] = kf[0]['id']
+            s['expect_refuted'] = True
+            known_hits.append(s)
+            continue
+        n_ob += 1
         if s['status'] == 'proved':
             n_proved += 1
         elif s['status'] == 'refuted':
